@@ -248,4 +248,17 @@ def ldProofVerify (L : LdEnv) (key : Key) (canonicalizes : Bool) (jwsParts : Nat
         .accept [{ key := key, src := .caller, alg := alg, idx := 0, overSigningInput := true }]
       else .reject
 
+/-! ### vcr/verifier signature_verifier.go jsonldProof (VC / VP with a JSON-LD proof): the proof's verificationMethod must be a
+      key of the issuer, the proof must be valid at the time, the key is resolved by that verificationMethod, then
+      LDProof.Verify -/
+
+def vcJsonLdProof (E : Env) (L : LdEnv) (issuer vm : String) (didOf : String → String) (validAt : Bool)
+    (canonicalizes : Bool) (jwsParts : Nat) (sigDecodes : Bool) : Outcome :=
+  if vm = "" then .reject                                         -- "missing proof"
+  else if didOf vm = "" || didOf vm ≠ issuer then .reject          -- errVerificationMethodNotOfIssuer
+  else if !validAt then .reject
+  else match E.resolve vm with
+    | none => .reject
+    | some k => ldProofVerify L k canonicalizes jwsParts sigDecodes
+
 end Nuts.C17
